@@ -1,5 +1,6 @@
 import Mustache.Basic.LineIO
 import Mustache.Model.World
+import Mustache.Spec.World
 /-! `driver world`: runs the world model on an op file and prints the observation lines of
     `harness/world_driver.cpp` (same grammar, same canonical format). -/
 namespace Mustache.Driver.World
@@ -169,8 +170,9 @@ def exec (s : St) (t : Nat) (ws : List String) : St × String :=
       let (w, sh, fresh) := (rest.drop 1).foldl (fun (acc : WM × Shared × List (Nat × Nat)) tok =>
         match (tok.toList.head?).bind sharedOf with
         | some sid =>
-          let (w', inst) := acc.1.freshInst
-          (w', acc.2.1.add sid inst, (inst, 0) :: acc.2.2)
+          -- a creation's default-valued shared component goes through the value pool like any other value
+          let (w', inst) := acc.1.poolGet sid 0
+          (w', acc.2.1.add sid inst, acc.2.2)
         | none => acc) (w, Shared.null, [])
       let (w, h, cbs) := w.create info t mask sh
       let (s', line) := { s with w := w, freshVals := fresh ++ s.freshVals }.issue h
@@ -256,7 +258,10 @@ def exec (s : St) (t : Nat) (ws : List String) : St × String :=
     | none => (s, "bad-op")
     | some mask =>
       let i := w.archs.findIdx (fun a => a.mask == mask)
-      if i < w.archs.length then ({ s with w := w.clearArch i }, "ok") else (s, "none")
+      if i < w.archs.length then
+        let (w, cbs) := w.clearArch info i
+        ({ s with w := w }, "ok" ++ showCbs s cbs)
+      else (s, "none")
   | ["update"] =>
     let (w, r, cbs) := w.update info
     ({ s with w := w }, resStr r ++ showCbs s cbs)
@@ -330,7 +335,232 @@ def step (s : St) (line : String) : St × List String :=
       else let (s', l) := exec s t rest; (s', [l])
     | none => let (s', l) := exec s 0 (w0 :: rest); (s', [l])
 
-def main (_args : List String) : IO UInt32 := do
+/-! ## spec stream (`driver worldspec`): the property-level observations, entities by ordinal -/
+section SpecStream
+open Mustache.Spec
+
+/-- ordinal named by an entity token: an ordinal, or the (latest) ordinal whose handle has that value -/
+def St.ordinal (s : St) (tok : String) : Option Nat :=
+  if tok = "null" then none
+  else if tok.startsWith "raw:" then
+    match (hexVal (tok.drop 4).toString) with
+    | some v => (s.ordOf.find? (·.1 == (Handle.ofValue v).value)).bind (fun p => if v < 2^64 ∧ (Handle.ofValue v).value = v then some p.2 else none)
+    | none => none
+  else match tok.toNat? with
+    | some k => if k < s.issued.size then some k else none
+    | none => none
+
+def showSCbs (cbs : List SCb) : String :=
+  let strs := cbs.map (fun (cb : SCb) => (if cb.1 then " cb=assign:" else " cb=remove:") ++ letterOf cb.2.1 ++ ":" ++ toString cb.2.2)
+  String.join (strs.toArray.qsort (· < ·)).toList
+
+def specDump (ws : WS) (n : Nat) : List String := Id.run do
+  let mut out : List String := ["dump"]
+  for o in [0:n] do
+    match ws.alive o with
+    | none => out := out ++ [s!"E {o} valid=0"]
+    | some e =>
+      let comps := e.comps.map (fun p => s!"{letterOf p.1}:{showVal p.2}")
+      let sh := ([0, 1].filterMap (fun sid => (e.shared.find? (·.1 == sid)).map (fun p => s!"{sharedLetter sid}:{p.2}")))
+      out := out ++ [s!"E {o} valid=1 comps={if comps.isEmpty then "-" else ",".intercalate comps} shared={if sh.isEmpty then "-" else ",".intercalate sh}"]
+  return out ++ ["end"]
+
+def entityOps : List String :=
+  ["assign", "assign0", "remove", "destroy", "destroynow", "clone", "sassign", "sremove", "valid", "has", "get",
+   "getmut", "archof", "markdirty", "marked"]
+
+def specExec (st : St) (ws : WS) (t : Nat) (ws_ : List String) : WS × String :=
+  let info := catalogue
+  let locked := ws.lockDepth > 0
+  -- an entity token that names no issued handle is rejected by both drivers
+  let badRef := match ws_ with
+    | op :: e :: _ => (entityOps.contains op || (op == "build" && e != "new")) && (st.entity e).isNone
+    | _ => false
+  if badRef then (ws, "bad-op") else
+  match ws_ with
+  | "create" :: rest =>
+    match parseMask (rest.headD "-") with
+    | none => (ws, "bad-op")
+    | some mask =>
+      let sh := (rest.drop 1).filterMap (fun tok => ((tok.toList.head?).bind sharedOf).map (fun sid => (sid, 0)))
+      if locked then
+        let o := ws.ents.length
+        ({ ws with ents := ws.ents ++ [none] }.push t (.create o mask sh), s!"h {o}")
+      else
+        let (ws, o, cbs) := ws.doCreate info mask sh
+        (ws, s!"h {o}" ++ showSCbs cbs)
+  | ["assign", e, c, tok] =>
+    match (c.toList.head?).bind compOf, tok.toNat? with
+    | some ci, some v =>
+      let o := st.ordinal e
+      if locked then (ws.push t (.assign o ci (storedVal info ci (some v))), "ok")
+      else match o with
+        | some k => let (ws, cbs) := ws.doAssign info k ci (storedVal info ci (some v)); (ws, "ok" ++ showSCbs cbs)
+        | none => (ws, "ok")
+    | _, _ => (ws, "bad-op")
+  | ["assign0", e, c] =>
+    match (c.toList.head?).bind compOf with
+    | some ci =>
+      let o := st.ordinal e
+      if locked then (ws.push t (.assign o ci (storedVal info ci none)), "ok")
+      else match o with
+        | some k => let (ws, cbs) := ws.doAssign info k ci (storedVal info ci none); (ws, "ok" ++ showSCbs cbs)
+        | none => (ws, "ok")
+    | none => (ws, "bad-op")
+  | ["remove", e, c] =>
+    match (c.toList.head?).bind compOf with
+    | some ci =>
+      let o := st.ordinal e
+      if locked then (ws.push t (.remove o ci), "ok")
+      else match o with
+        | some k => let (ws, cbs) := ws.doRemove info k ci; (ws, "ok" ++ showSCbs cbs)
+        | none => (ws, "ok")
+    | none => (ws, "bad-op")
+  | "build" :: e :: rest =>
+    match parseBuild rest with
+    | none => (ws, "bad-op")
+    | some (adds, rems) =>
+      if adds.length > 2 || rems.length > 2 then (ws, "bad-op") else
+      if e = "new" then
+        if locked then
+          let o := ws.ents.length
+          let ws := { ws with ents := ws.ents ++ [none] }.push t (.create o [] [])
+          let ws := adds.foldl (fun ws p => ws.push t (.assign (some o) p.1 (storedVal info p.1 p.2))) ws
+          (ws, s!"h {o}")
+        else
+          let (ws, o, cbs) := ws.doBuildNew info adds
+          (ws, s!"h {o}" ++ showSCbs cbs)
+      else
+        let o := st.ordinal e
+        if locked then
+          let ws := adds.foldl (fun ws p => ws.push t (.assign o p.1 (storedVal info p.1 p.2))) ws
+          let ws := rems.foldl (fun ws c => ws.push t (.remove o c)) ws
+          (ws, "ok")
+        else match o with
+          | some k =>
+            match ws.doBuild info k adds rems with
+            | some (ws, cbs) => (ws, "ok" ++ showSCbs cbs)
+            | none => (ws, "err:self-move")
+          | none => (ws, "ok")
+  | ["destroy", e] =>
+    let o := st.ordinal e
+    if locked then (ws.push t (.destroy o), "ok")
+    else match o with
+      | some k => (if (ws.alive k).isSome then { ws with marked := insertNat ws.marked k } else ws, "ok")
+      | none => (ws, "ok")
+  | ["destroynow", e] =>
+    let o := st.ordinal e
+    if locked then (ws.push t (.destroyNow o), "ok")
+    else match o with
+      | some k => let (ws, cbs) := ws.doDestroy info k; (ws, "ok" ++ showSCbs cbs)
+      | none => (ws, "ok")
+  | ["clone", e] =>
+    match st.ordinal e with
+    | some k =>
+      match ws.doClone k with
+      | (ws, some o) => (ws, s!"h {o}")
+      | (ws, none) => (ws, "null")
+    | none => (ws, "null")
+  | ["sassign", e, sh, v] =>
+    match st.ordinal e, (sh.toList.head?).bind sharedOf, v.toNat? with
+    | some k, some sid, some val =>
+      match ws.alive k with
+      | some ent => (ws.setEnt k (some { ent with shared := setShared ent.shared sid val }), "ok")
+      | none => (ws, "ok")
+    | _, _, _ => (ws, "ok")
+  | ["sremove", e, sh] =>
+    match st.ordinal e, (sh.toList.head?).bind sharedOf with
+    | some k, some sid =>
+      match ws.alive k with
+      | some ent =>
+        if ent.shared.any (·.1 == sid) then
+          (ws.setEnt k (some { ent with shared := ent.shared.filter (·.1 != sid) }), "ret=1")
+        else (ws, "ret=0")
+      | none => (ws, "ret=0")
+    | _, _ => (ws, "ret=0")
+  | ["cleararch", m] =>
+    match parseMask m with
+    | some mask => let (ws, cbs) := ws.clearArch info mask; (ws, "ok" ++ showSCbs cbs)
+    | none => (ws, "bad-op")
+  | ["update"] =>
+    if locked then (ws, "err:locked-update") else
+    let (ws, cbs) := ws.update info
+    (ws, "ok" ++ showSCbs cbs)
+  | ["lock"] => (ws.lock, "ok")
+  | ["unlock"] =>
+    let (ws, r, cbs) := ws.unlock info
+    (ws, (if r then "ret=1" else "ret=0") ++ showSCbs cbs)
+  | ["dep", m, ds] =>
+    match (m.toList.head?).bind compOf, parseMask ds with
+    | some c, some extra => ({ ws with deps := addDependency ws.deps c extra }, "ok")
+    | _, _ => (ws, "bad-op")
+  | ["valid", e] => (ws, if ws.isAlive (st.ordinal e) then "valid=1" else "valid=0")
+  | ["has", e, c] =>
+    match st.ordinal e with
+    | some k =>
+      match ws.alive k with
+      | some ent =>
+        match (c.toList.head?).bind compOf, (c.toList.head?).bind sharedOf with
+        | some ci, _ => (ws, if (compSet ent).contains ci then "has=1" else "has=0")
+        | none, some sid => (ws, if ent.shared.any (·.1 == sid) then "has=1" else "has=0")
+        | none, none => (ws, "has=0")
+      | none => (ws, "has=0")
+    | none => (ws, "has=0")
+  | [g, e, c] =>
+    if g = "get" || g = "getmut" then
+      match st.ordinal e, (c.toList.head?).bind compOf with
+      | some k, some ci =>
+        match ws.alive k with
+        | some ent =>
+          match ent.comps.find? (·.1 == ci) with
+          | some p => (ws, "val=" ++ showVal p.2)
+          | none => (ws, "val=null")
+        | none => (ws, "val=null")
+      | _, _ => (ws, "val=null")
+    else if g = "markdirty" then (ws, "ok")
+    else (ws, "bad-op")
+  | ["archof", e] => (ws, if ws.isAlive (st.ordinal e) then "arch=some" else "arch=null")
+  | ["marked", _] => (ws, "marked=*")
+  | _ => (ws, "bad-op")
+
+def specStep (st : St) (ws : WS) (line : String) : WS × List String :=
+  match words line with
+  | ["threads", n] =>
+    match n.toNat? with
+    | some k => ({ ws with nthreads := k + 1 }, ["ok"])
+    | none => (ws, ["bad-op"])
+  | ["worldid", _] => (ws, ["ok"])
+  | ["defaultctx"] => (ws, ["ok"])
+  | ["storagecap", _] => (ws, ["ok"])
+  | ["dump"] => (ws, specDump ws st.issued.size)
+  | ["teardown"] => (ws, ["teardown"])
+  | [] => (ws, [])
+  | w0 :: rest =>
+    let tid : Option Nat :=
+      match w0.toList with
+      | 't' :: ds => if ds.isEmpty then none else (String.ofList ds).toNat?
+      | _ => none
+    match tid with
+    | some t =>
+      if rest.isEmpty then (ws, ["bad-op"])
+      else if t ≠ 0 && (!(ws.lockDepth > 0) || t ≥ ws.nthreads) then (ws, ["bad-op"])
+      else let (ws', l) := specExec st ws t rest; (ws', [l])
+    | none => let (ws', l) := specExec st ws 0 (w0 :: rest); (ws', [l])
+
+def specMain : IO UInt32 := do
+  let init : St := { w := { nthreads := 3 } }
+  let ws0 : WS := { nthreads := 3 }
+  let _ ← foldStdin (fun (p : St × WS) l => do
+    -- the spec sees the handle table as it is BEFORE the op (ordinals of raw patterns), then the model advances
+    let (ws', outs) := specStep p.1 p.2 l
+    for o in outs do IO.println o
+    let (st', _) := step p.1 l
+    pure (st', ws')) (init, ws0)
+  return 0
+end SpecStream
+
+def main (args : List String) : IO UInt32 := do
+  if args == ["spec"] then return (← specMain)
   let init : St := { w := { nthreads := 3 } }       -- default `threads 2`
   let _ ← foldStdin (fun s l => do
     let (s', outs) := step s l
